@@ -42,10 +42,12 @@ type IntegProfile struct {
 	// InternalCancelStage: releasing this (nesting) stage makes the scheduler cancel the run
 	// itself (a stage condition inside cannot be evaluated); the release counts as the Cancel call
 	InternalCancelStage string
-	PreemptPct          int  // percent of releases after which the released goroutine is preempted at one of its next function entries
-	PreemptDepth        int  // the preemption lands within this many function entries
-	Barrier             bool // C04 at INTEG level: no process completes until every eligible stage has a command in flight
-	Checks              map[string]bool
+	// OverlapCancels: with two Cancel faults, hold the first inside Cancel and fire the second meanwhile
+	OverlapCancels bool
+	PreemptPct     int  // percent of releases after which the released goroutine is preempted at one of its next function entries
+	PreemptDepth   int  // the preemption lands within this many function entries
+	Barrier        bool // C04 at INTEG level: no process completes until every eligible stage has a command in flight
+	Checks         map[string]bool
 }
 
 type execRec struct {
@@ -91,24 +93,25 @@ type integEngine struct {
 	finished bool
 	finSeq   int
 
-	upState     map[string]*int32 // 0 not begun, 1 in progress, 2 done (written by hook goroutines)
-	upBeginSeq  map[string]int
-	upEndSeq    map[string]int
-	listenerRel []int // seq of the releases of the command line's cancel listeners
-	cancelCalls []int // seq of cancel-call events
-	cancelRets  []int
-	faultsFired int
-	lastRelease time.Duration
-	maxExecPar  int
-	writing     atomic.Value // string: exec key whose chunk is being delivered
-	limboUsed   int
-	builtGraphs map[*GraphSpec]*scheduler.ExecutionGraph
-	cancelGIDs  sync.Map // goroutines that are executing Cancel: their log lines are park points
-	cli         bool
-	logSeq      int32
-	midArm      int32 // >0: suspend a scheduling pass at its n-th visit of a stage
-	nstages     int
-	runGID      []runRec
+	upState         map[string]*int32 // 0 not begun, 1 in progress, 2 done (written by hook goroutines)
+	upBeginSeq      map[string]int
+	upEndSeq        map[string]int
+	cancelPreempted bool  // a Cancel call was held inside Cancel while another one ran (overlapping cancels)
+	listenerRel     []int // seq of the releases of the command line's cancel listeners
+	cancelCalls     []int // seq of cancel-call events
+	cancelRets      []int
+	faultsFired     int
+	lastRelease     time.Duration
+	maxExecPar      int
+	writing         atomic.Value // string: exec key whose chunk is being delivered
+	limboUsed       int
+	builtGraphs     map[*GraphSpec]*scheduler.ExecutionGraph
+	cancelGIDs      sync.Map // goroutines that are executing Cancel: their log lines are park points
+	cli             bool
+	logSeq          int32
+	midArm          int32 // >0: suspend a scheduling pass at its n-th visit of a stage
+	nstages         int
+	runGID          []runRec
 }
 
 type runRec struct {
@@ -1061,6 +1064,15 @@ func (e *integEngine) pipelineStarted(name string) bool {
 }
 
 func (e *integEngine) fireFault(f *Park) {
+	still := false
+	for _, q := range e.c.ParkedOf("fault-cancel") {
+		if q == f {
+			still = true
+		}
+	}
+	if !still {
+		return // already fired together with an earlier one (overlapping cancels)
+	}
 	e.faultsFired++
 	n := 0
 	for _, x := range e.execs {
@@ -1080,6 +1092,26 @@ func (e *integEngine) fireFault(f *Park) {
 	}
 	if !released {
 		e.c.Count("fault_cancel_before_run")
+	}
+	if e.prof.OverlapCancels && stmtPoints > 0 && e.faultsFired == 1 && len(e.c.ParkedOf("fault-cancel")) >= 2 {
+		// two Cancel calls that overlap: the first is held before one of its first statements
+		// inside Cancel, the second is fired while it is held. (The instant at which "the"
+		// cancellation happened is then not the first call: the rule about commands running at
+		// that instant is not applied to these runs.)
+		e.cancelPreempted = true
+		if e.prof.PreemptPct == 0 {
+			vsync.PreemptHook.Store(e.preemptPark)
+		}
+		vsync.ArmStmt(1+e.c.Ch.Choose(6, "cancel-preempt-depth"), f.GID)
+		e.c.Count("c12_overlapping_cancels_armed")
+		e.c.Release(f, Action{Kind: "go"})
+		e.c.Quiesce()
+		vsync.ArmStmt(0, 0)
+		if rest := e.c.ParkedOf("fault-cancel"); len(rest) > 0 {
+			e.faultsFired++
+			e.c.Release(rest[0], Action{Kind: "go"})
+		}
+		return
 	}
 	e.c.Release(f, Action{Kind: "go"})
 }
@@ -1145,6 +1177,10 @@ func (e *integEngine) loop() {
 				w = append(w, prof.WExec)
 			case "driver", "finish":
 				w = append(w, prof.WDriver)
+			case "preempt":
+				// a goroutine held in the middle of something: the others go first, mostly - what
+				// they do while it is held is the point
+				w = append(w, 1+prof.WYield/5)
 			default:
 				w = append(w, prof.WYield)
 			}
@@ -1173,7 +1209,12 @@ func (e *integEngine) loop() {
 				// function entries inside taskctl's code
 				if stmtPoints > 0 && c.Ch.Bool(1, 2, "preempt-at-statement") {
 					// ... or before one of its next statements (windows a few statements wide)
-					vsync.ArmStmt(1+c.Ch.Choose(prof.PreemptDepth*5, "preempt-stmt-depth"), parks[k].GID)
+					// (near or far: loops over maps make the way to a given statement long)
+					span := prof.PreemptDepth * 5
+					if c.Ch.Bool(1, 3, "preempt-far") {
+						span = prof.PreemptDepth * 30
+					}
+					vsync.ArmStmt(1+c.Ch.Choose(span, "preempt-stmt-depth"), parks[k].GID)
 					c.Count("preemptions_armed_at_statements")
 				} else {
 					vsync.Arm(1+c.Ch.Choose(prof.PreemptDepth, "preempt-depth"), parks[k].GID)
